@@ -292,6 +292,14 @@ def multiscale_cases(draw):
                        "bits": [draw(st.integers(0, 2)) for _ in range(3)],
                        "enc": [draw(st.sampled_from(["raw", "gzip"])),
                                draw(st.sampled_from(["raw", "gzip"]))]})
+    if draw(st.booleans()):
+        # the usual pyramid: every scale has the same sharding bit counts,
+        # while the encodings of the shard contents still differ by scale
+        for i, p in enumerate(scales[1:]):
+            p["bits"] = list(scales[0]["bits"])
+            if i % 2 == 0:
+                p["enc"] = [{"raw": "gzip", "gzip": "raw"}[e]
+                            for e in scales[0]["enc"]]
     return {"multiscale": True, "sharded": sharded, "scales": scales,
             "dtype": draw(st.sampled_from(["uint8", "uint16"])),
             "form": draw(st.sampled_from(URL_FORMS)),
